@@ -1,16 +1,18 @@
 #!/bin/sh
-# neutral.sh [patch...] : applies each behaviour-preserving rewrite to a scratch copy and requires every check to stay silent
+# neutral.sh [patch...] : applies each behaviour-preserving rewrite to a scratch copy and requires every check to stay silent.
+# Patches are processed 6 at a time (each in its own scratch copy under /tmp, removed afterwards).
 export GOFLAGS=-mod=mod GOPROXY=off GOSUMDB=off GOTOOLCHAIN=local; unset GOWORK
-P="$@"; [ -z "$P" ] && P=$(ls /verif/sa/neutral/*.patch)
-rc=0
-for p in $P; do
+if [ "$1" = "--one" ]; then
+  p=$2; rc=0
   D=$(mktemp -d /tmp/sipsp-neu.XXXXXX); rsync -a --exclude .git /repo/ $D/
-  (cd $D && patch -s -p1 < $p) || { echo "PATCHFAIL $p"; rm -rf $D; rc=1; continue; }
+  (cd $D && patch -s -p1 < $p) || { echo "PATCHFAIL $p"; rm -rf $D; exit 1; }
   (cd $D && go build ./... && go test -vet=off -count=1 ./... >/dev/null 2>&1) || echo "NOTE tests fail on $(basename $p)"
   for c in C01 C03 C04 C05 C06 C07 C08 C09 C10 C11 C12 C13 C14 C15 C16 C17 C18 C19 C20; do
-    /verif/bin/sipsp-sa check $c --repo $D --no-evidence > /tmp/neu.out.$$ 2>&1 || { echo "FALSE ALARM $c on $(basename $p): $(grep '^FAIL' /tmp/neu.out.$$ | head -2 | cut -c1-200)"; rc=1; }
+    /verif/bin/sipsp-sa check $c --repo $D --no-evidence > $D.out 2>&1 || { echo "FALSE ALARM $c on $(basename $p): $(grep '^FAIL' $D.out | head -2 | cut -c1-200)"; rc=1; }
   done
-  rm -rf $D /tmp/neu.out.$$
-done
-[ $rc = 0 ] && echo "all silent"
-exit $rc
+  rm -rf $D $D.out
+  exit $rc
+fi
+P="$@"; [ -z "$P" ] && P=$(ls /verif/sa/neutral/*.patch)
+if echo $P | tr ' ' '\n' | xargs -P 6 -n 1 "$0" --one; then echo "all silent"; exit 0; fi
+exit 1
